@@ -265,16 +265,25 @@ def ft5(prog, rr):
 
 
 # --------------------------------------------------------------------------------------- FT6
-@rule("FT6", ["C06", "C07"], "per-class constraint wrappers are never used to resolve per-instance behaviour; the proxy writes only the instance's block", engine="EFF", floor=6)
+@rule("FT6D", ["C06"], "the per-class dynamic-constraint wrapper is never used to resolve which instance's block a reference means", engine="EFF", floor=1)
+def ft6d(prog, rr):
+    _ft6(prog, rr, ("dynamic_constraint_t",), False)
+
+
+@rule("FT6", ["C07"], "per-class constraint wrappers are never used to resolve per-instance behaviour; the proxy writes only the instance's block", engine="EFF", floor=6)
 def ft6(prog, rr):
-    wrappers = ("constraint_t", "dynamic_constraint_t")
+    _ft6(prog, rr, ("constraint_t",), True)
+
+
+def _ft6(prog, rr, wrappers, rest):
     # (1) reads of .model on wrapper-typed objects
     for f in prog.funcs:
         narrowed = set()
         for n in walk_local(f.node):
             if isinstance(n, ast.Call) and isinstance(n.func, ast.Name) and n.func.id == "isinstance" and len(n.args) == 2:
                 ts = n.args[1].elts if isinstance(n.args[1], ast.Tuple) else [n.args[1]]
-                if any((dotted(t) or "").split(".")[-1] in wrappers for t in ts) and isinstance(n.args[0], ast.Name):
+                tn = [(dotted(t) or "").split(".")[-1] for t in ts]
+                if any(t in wrappers for t in tn) and isinstance(n.args[0], ast.Name):
                     narrowed.add(n.args[0].id)
         if f.cls is not None and f.cls.name in wrappers:
             narrowed.add("self")
@@ -288,6 +297,8 @@ def ft6(prog, rr):
                 if not allowed:
                     rr.finding(f, n, q, "FT6: the per-class wrapper's `model` (which points at the most recently constructed instance's block) is read "
                                "to resolve behaviour for whichever instance is being used; with several live instances the wrong object's block is used")
+    if not rest:
+        return
     # (2) the proxy is built from this instance's model and writes only to it
     for cls in [c for c in prog.classes if c.name == "randobj_interposer"]:
         ga = cls.methods["__getattribute__"]
